@@ -96,7 +96,12 @@ def run_c19(ctx):
         report(ctx, rep, tpath, "C19.", "the real Aggregator's result differs from Aggregator.tla (certificate presence, content or validity)")
     # system level: every QC/TC a real node assembles in multi-node runs (view changes, duplicates, drops) consists of distinct
     # authorities with quorum stake that had each sent this node a matching vote/timeout (monitors in TraceHS.tla)
-    from .core import multi_runs
+    from .core import multi_runs, generate_behaviours, replay_local, PROPS
+    # ... and under TLC-generated stimuli for one real node, among them votes forged in the node's own name (the harness judges every
+    # delivered vote / timeout with the message's own verify(); only correctly signed ones count as received)
+    spec = dict(PROPS["C03"], invs=[])
+    behs = generate_behaviours(ctx, "C19", spec, 200 if q else 3000, 24 if q else 30)[: (200 if q else 3000)]
+    replay_local(ctx, "C19", spec, hs, behs, "a")
     multi_runs(ctx, "C19", hs, "crash", ["n=4", "steps=500", "crash=2", "crash_at=30", "p_timer=0.05", "p_drop=0.05", "p_dup=0.1", "maxround=30"], 3 if q else 40)
     multi_runs(ctx, "C19", hs, "stake", ["n=5", "stakes=3,1,1,1,1", "steps=700", "crash=3", "crash_at=50", "p_timer=0.04", "p_dup=0.1", "maxround=25"], 2 if q else 30)
     return ctx.finish()
